@@ -274,6 +274,22 @@ func (e *End) IsClosed() bool {
 	return e.closed
 }
 
+// ClosedSoon reports whether this end has been closed, waiting up to d for it: an
+// endpoint whose context ended closes its connection from a watcher goroutine, which may
+// finish a moment after the blocked call has returned.
+func (e *End) ClosedSoon(d time.Duration) bool {
+	deadline := time.Now().Add(d)
+	for {
+		if e.IsClosed() {
+			return true
+		}
+		if time.Now().After(deadline) {
+			return false
+		}
+		time.Sleep(time.Millisecond)
+	}
+}
+
 func (e *End) Pending() int {
 	e.w.mu.Lock()
 	defer e.w.mu.Unlock()
